@@ -170,6 +170,10 @@ class ExtRecorder(Py27Recorder):
     def startTest(self, test):
         self.testsRun += 1
         self._test_tags = set(self._run_tags)
+        try:
+            hash(test)      # results commonly key their bookkeeping by the test object
+        except TypeError:
+            self.__dict__.setdefault("unhashable_tests", []).append(repr(test))
         self.log.add("startTest", test)
 
     def stopTest(self, test):
